@@ -22,7 +22,7 @@ fn default_opt() -> Opt {
     Opt { opaque: true, wildcard: false, from_impls: false, no_std: false, custom: vec![], annotations: vec![DEFAULT_ANN.into()] }
 }
 
-const FIXED: [(&str, &str); 28] = [
+const FIXED: [(&str, &str); 32] = [
     ("recursion-direct", "Rec ::= SEQUENCE { next Rec OPTIONAL, v INTEGER }"),
     ("recursion-choice", "Tree ::= CHOICE { leaf INTEGER, node SEQUENCE { l Tree, r Tree } }"),
     ("recursion-mutual", "Ra ::= SEQUENCE { b Rb OPTIONAL }\nRb ::= SEQUENCE { a Ra, n NULL }"),
@@ -47,6 +47,10 @@ const FIXED: [(&str, &str); 28] = [
     ("alias-values", "Nn ::= INTEGER { one(1), nine(9) }\nNa ::= Nn\nNb ::= Na\nEe ::= ENUMERATED { p, q }\nEa ::= Ee\nva Na ::= nine\nvb Nb ::= 4\nvc Ea ::= p\nvd Nb ::= one"),
     // the member's type comes from the PER-visible fold, the default function's from the plain ranges: they must agree
     ("defaults-set-operators", "Du ::= SEQUENCE { e [0] INTEGER (0..10 | 20..300) DEFAULT 5, f [1] INTEGER (0..10)(0..5, ...) DEFAULT 3, g [2] INTEGER (0..300 ^ 5..10) DEFAULT 7, h [3] INTEGER ((0..10), ...) DEFAULT 2, i [4] INTEGER (-5..5 | 100) DEFAULT -2 }"),
+    ("values-governed-by-selection-types", "Shape ::= CHOICE { radius [0] INTEGER, side [1] BOOLEAN, small [2] INTEGER (0..7), label [3] UTF8String }\nlimit radius < Shape ::= 5\nflag side < Shape ::= TRUE\nlow small < Shape ::= 3\nname label < Shape ::= \"x\"\nHolder ::= SEQUENCE { r [0] radius < Shape, s [1] small < Shape DEFAULT 2 }"),
+    ("recursion-two-members-through-alias", "Tree ::= SEQUENCE { left [0] Subtree OPTIONAL, right [1] Subtree OPTIONAL, v [2] INTEGER }\nSubtree ::= Tree\nPa ::= SEQUENCE { q1 [0] Pb OPTIONAL, q2 [1] Pb OPTIONAL }\nPb ::= SEQUENCE { p1 [0] Pa OPTIONAL, p2 [1] Pa OPTIONAL }"),
+    ("enumerated-numbered-additions", "En1 ::= ENUMERATED { idle, busy, ..., failed(2), unknown }\nEn2 ::= ENUMERATED { a, b, ..., c(5), d }\nEn3 ::= ENUMERATED { a(3), b, c(0), ..., d, e(9), f }\nev En1 ::= unknown"),
+    ("components-of-extensible-type", "Tt ::= SEQUENCE { t1 INTEGER, ..., t2 NULL }\nIi ::= SEQUENCE { y BOOLEAN, COMPONENTS OF Tt }\nIj ::= SET { y BOOLEAN, COMPONENTS OF Tt }"),
     ("alias-boolean-string-default", "Bo ::= BOOLEAN\nBa ::= Bo\nSt ::= UTF8String\nSa ::= St\nDd ::= SEQUENCE { a [0] Ba DEFAULT TRUE, b [1] Sa DEFAULT \"x\" }"),
     ("nested-depth-4", "Dp ::= SEQUENCE { l1 SEQUENCE { l2 CHOICE { l3 SEQUENCE OF SEQUENCE { l4 ENUMERATED { a, b }, k SET { m INTEGER } } } } }"),
     ("set-and-set-of", "St ::= SET { a [0] INTEGER, b [1] BOOLEAN OPTIONAL, ... , c [2] NULL }\nSo ::= SET (SIZE (1..4)) OF St"),
